@@ -1,17 +1,18 @@
 """Native oracle for C25 (bounded layer), real compiler.
 
-For every modifier list of length <= 3 over {dagger, control(q), control(q1, q2), control(arr),
+For every modifier list of length <= 3 over {dagger, control(q), control(q'), control(q, q'), control(arr),
 power(2), power(n)} a function `with <modifiers>: h(t)` is compiled; from the HUGR of the caller
 we read the chain  LoadFunc -> modifier ops -> CallIndirect  and compare it with the source:
 one op per modifier in source order, ControlModifier arity = number of control qubits, power
-operand = the exponent, and every captured qubit/control is an input AND an output of the call.
+operand = the exponent, every captured qubit/control is an input AND an output of the call, every
+wire around the call is well typed and every variable gets back the value handed back for IT.
 """
 ORACLE = r'''
 import itertools, os, sys, tempfile, importlib.util, shutil, json
 from guppylang_internals.error import GuppyError
 from hugr import ops, tys as ht
 
-MODS = {"D": ("dagger", 0), "C1": ("control(c1)", 1), "C2": ("control(c1, c2)", 2), "CA": ("control(ca)", 3), "P2": ("power(2)", 0), "PN": ("power(n)", 0)}
+MODS = {"D": ("dagger", 0), "C1": ("control(c1)", 1), "C2": ("control(c1, c2)", 2), "C3": ("control(c2)", 1), "CA": ("control(ca)", 3), "P2": ("power(2)", 0), "PN": ("power(n)", 0)}
 HEADER = """import guppylang
 guppylang.enable_experimental_features()
 from guppylang import guppy
@@ -35,6 +36,7 @@ def valid(mods):
     for m in mods:
         if m == "C1": used += ["c1"]
         if m == "C2": used += ["c1", "c2"]
+        if m == "C3": used += ["c2"]
         if m == "CA": used += ["ca"]
     return len(used) == len(set(used))
 
@@ -125,6 +127,60 @@ def modifier_chain(hugr, fname):
     n_out = sum(1 for op_, ins in hugr.outgoing_links(call) if op_.offset >= 0)
     return chain, n_in, n_out
 
+def threading_problems(hugr, fname):
+    """(a) every wire in the block holding the call connects ports of the same type (the indirect call's
+    arguments are what the modified function value takes, its results are what the unpacking expects);
+    (b) every variable that enters the block leaves it as the value handed back FOR IT: following output
+    k+1 of the block backwards (array conversions, unpack/new_array element p <-> p, result j of the call
+    <-> argument j of the call) ends at input k."""
+    fn = [n for n in hugr.descendants() if isinstance(hugr[n].op, ops.FuncDefn) and hugr[n].op.f_name == fname][0]
+    def inside(n):
+        p = hugr[n].parent
+        while p is not None:
+            if p == fn: return True
+            p = hugr[p].parent
+        return False
+    call = [n for n in hugr.descendants() if isinstance(hugr[n].op, ops.CallIndirect) and inside(n)][0]
+    blk = hugr[call].parent
+    msgs = []
+    for n in hugr.children(blk):
+        for op_, ins in hugr.outgoing_links(n):
+            if op_.offset < 0: continue
+            try: t1 = hugr.port_type(op_)
+            except Exception: continue
+            for ip in ins:
+                try: t2 = hugr.port_type(ip)
+                except Exception: continue
+                if t1 is not None and t2 is not None and t1 != t2:
+                    msgs.append(f"ill-typed wire {opname(hugr, n)}.out{op_.offset} : {t1} -> {opname(hugr, ip.node)}.in{ip.offset} : {t2}")
+    kids = list(hugr.children(blk))
+    inp = [n for n in kids if isinstance(hugr[n].op, ops.Input)][0]
+    out = [n for n in kids if isinstance(hugr[n].op, ops.Output)][0]
+    def src(n, port):
+        for ip, outs in hugr.incoming_links(n):
+            if ip.offset == port: return outs[0].node, outs[0].offset
+        return None
+    n_vars = sum(1 for ip, _ in hugr.incoming_links(out) if ip.offset >= 1)
+    for k in range(n_vars):
+        cur = src(out, k + 1); stack = []; steps = 0
+        while cur is not None and steps < 50:
+            n, off = cur; steps += 1
+            op = hugr[n].op; nm_ = opname(hugr, n)
+            if isinstance(op, ops.Input):
+                if n == inp and off != k and not stack:
+                    msgs.append(f"the value handed back for block variable {k} is the one that entered as variable {off}")
+                break
+            if isinstance(op, ops.CallIndirect): cur = src(n, off + 1)
+            elif nm_ == "unpack": stack.append(off); cur = src(n, 0)
+            elif nm_ == "new_array": cur = src(n, stack.pop() if stack else 0)
+            elif nm_ in ("to_array", "from_array"): cur = src(n, 0)
+            else: break          # the body's own gates etc.: not a pure hand-back
+    return msgs
+
+def opname(hugr, n):
+    op = hugr[n].op
+    return op.op_def().name if isinstance(op, ops.ExtOp) else type(op).__name__
+
 def expected(mods):
     """one op per modifier, in source order (the first modifier is the outermost)"""
     out = []
@@ -167,6 +223,10 @@ def judge(mods, res, i):
     # threading: the call consumes the function, one array per control and the captured target, and hands controls and target back
     if n_in != 1 + n_ctrl + 1: msgs.append(f"call has {n_in} value inputs, expected {2 + n_ctrl}")
     if n_out != n_ctrl + 1: msgs.append(f"call hands back {n_out} values, expected {n_ctrl + 1}")
+    try:
+        msgs += threading_problems(h, f"f{i}")[:2]
+    except Exception as ex:  # noqa
+        msgs.append("cannot follow the wires around the call: " + repr(ex)[:160])
     if chain != want:
         # the recorded deviation, recognised exactly: grouped Dagger, Power, Control; an even number of daggers cancels
         if chain == model_known(mods) and not msgs:
